@@ -281,13 +281,14 @@ class Unit:
                 if m.group(1):
                     optional_loops.add(int(m.group(2)))   # `loop? k`: clauses for a loop that may be absent
                 continue
-            m = re.match(r'(?:proof|ghost)-(after|before)\s+/(.*)/(?:#(-?\d+))?\s*$', t)
+            m = re.match(r'(?:proof|ghost)-(after|before)(\??)\s+/(.*)/(?:#(-?\d+))?\s*$', t)
             if m:
                 mode = 'proof'
                 cur = []
                 if t.startswith('ghost-'):
                     cur.append('@@GHOST@@')      # raw `let ghost` lines: not wrapped in proof { }
-                proofs.append((m.group(2), cur, m.group(1), int(m.group(3) or 0)))
+                # `proof-after? /re/`: a hint for a statement that may be absent (then there is nothing to hint at)
+                proofs.append((m.group(3), cur, m.group(1), int(m.group(4) or 0), bool(m.group(2))))
                 continue
             if t.startswith('sub ') or t.startswith('sub? '):
                 subs.append(self._parse_sub(t))
@@ -414,8 +415,10 @@ class Unit:
                 raise X.AnchorError('fn %s: loop %d not found (has %d)' % (name, k, len(loop_braces)))
             inserts.append((loop_braces[k - 1], ('loop', k, lines)))
             rw.bump('R7')
-        for rx, lines, where_, nth in proofs:
+        for rx, lines, where_, nth, optional_ in proofs:
             ms = X._find_code_regex(body, rx)
+            if optional_ and not ms:
+                continue
             if nth < 0:
                 if not ms:
                     raise X.AnchorError('fn %s: proof anchor /%s/ not found' % (name, rx))
